@@ -102,7 +102,7 @@ def discover(ex, head, results, modL, modH, modG):
 
 def oblige(ex, st, kind, label, goal, extra=None):
     name = "%s/%s[%s]" % (ex.env.fn.key, kind, label)
-    st.obligations.append(Obligation(name, st.pc, goal, st.sig, kind, label, ex.env.contract.props if ex.env.contract else (),
+    st.obligations.append(Obligation(name, st.hyps(), goal, st.sig, kind, label, ex.env.contract.props if ex.env.contract else (),
                                      extra))
 
 
@@ -124,9 +124,9 @@ def _spec(ex, stmt):
 
 def exec_for(ex, st, stmt):
     def go(s, it):
-        it = ex.lift(it)
-        if isinstance(it, Meta):
+        if isinstance(it, Meta) and isinstance(it.py, (tuple, list)):
             return unrolled(ex, s, stmt, [ex.meta_or_val(x) for x in it.py])
+        it = ex.lift(it)
         return symbolic_for(ex, s, stmt, it)
     return ex.from_expr(ex.eval(st, stmt.iter), go)
 
